@@ -436,7 +436,26 @@ def run_mapping(d: dict[str, Any], strict: bool) -> dict[str, Any]:
     except _Timeout:
         return {"cls": "timeout", "stage": "validate"}
     except Exception as e:  # noqa: BLE001
-        return {"cls": "other", "etype": type(e).__name__, "site": site_of(e), "stage": "validate", "msg": str(e)[:120]}
+        return {"cls": "other", "etype": type(e).__name__, "site": site_of(e), "stage": "validate", "msg": str(e)[:120],
+                "schema_valid": schema_valid(d)}
+
+
+def schema_valid(d: dict[str, Any]) -> bool:
+    """do the sections satisfy the two JSON schemas (what the checks after the schema validation may rely on)?"""
+    from poetry.core.json import validate_object
+    try:
+        tool = d.get("tool", {})
+        if not isinstance(tool, dict):
+            return False
+        poetry = tool.get("poetry", {})
+        project = d.get("project")
+        if not isinstance(poetry, dict) or (project is not None and not isinstance(project, dict)):
+            return False
+        if validate_object(copy.deepcopy(poetry), "poetry-schema"):
+            return False
+        return project is None or not validate_object(copy.deepcopy(project), "project-schema")
+    except Exception:  # noqa: BLE001
+        return False
 
 
 def mapping_violation(d: dict[str, Any], strict: bool, label: str, o: dict[str, Any]) -> tuple[str, str, dict[str, Any]] | None:
@@ -445,8 +464,11 @@ def mapping_violation(d: dict[str, Any], strict: bool, label: str, o: dict[str, 
     if o["cls"] == "timeout":
         return (f"validate:timeout:{label}", f"Factory.validate(strict={strict}) exceeded {ALARM_S:.0f} s CPU on a {label} mapping",
                 {"parser": "validate", "mapping": d, "strict": strict, "label": label})
-    key = f"validate:{o['etype']}:{o['site']}"
-    what = (f"Factory.validate(strict={strict}) raised {o['etype']} ({o['msg']}) at {o['site']} instead of returning error lists; "
+    # a crash on data that violates a schema is one family per exception type (the follow-up checks assume schema-valid
+    # types; the site is whichever check meets the value first); a crash on schema-valid data is keyed by its site
+    key = f"validate:{o['etype']}:{o['site']}" if o.get("schema_valid") else f"validate:schema-invalid:{o['etype']}"
+    what = (f"Factory.validate(strict={strict}) raised {o['etype']} ({o['msg']}) at {o['site']} instead of returning error lists "
+            f"(sections {'satisfy' if o.get('schema_valid') else 'violate'} the schemas); "
             f"mapping {json.dumps(d, default=str)[:160]}")
     return key, what, {"parser": "validate", "mapping": d, "strict": strict, "label": label}
 
